@@ -560,7 +560,20 @@ func findIndexLoopOver(fn *ssa.Function, x string) *ssa.BasicBlock {
 			}
 		}
 	}
-	return nil
+	// the loop may have been moved into a helper that did not exist on the reference tree
+	var found *ssa.BasicBlock
+	if liftDepth < maxLiftDepth {
+		eachInstr(fn, func(ins ssa.Instruction) {
+			ci, ok := ins.(*ssa.Call)
+			if !ok || found != nil {
+				return
+			}
+			if callee := transparentCallee(ci); callee != nil && callee != fn {
+				withCallEnv(ci, callee, func() { found = findIndexLoopOver(callee, x) })
+			}
+		})
+	}
+	return found
 }
 
 // loopExitsOnlyByReturnErr: the loop is left only at its header or by returning a non-success outcome.
